@@ -17,6 +17,7 @@ import (
 	"math/rand"
 	"os"
 	"runtime"
+	"runtime/pprof"
 	"sort"
 	"strings"
 	"sync"
@@ -91,6 +92,26 @@ func (s *statsT) minSlack(d time.Duration) {
 }
 
 var stats statsT
+
+var stopProfile = func() {}
+
+// splitMix is a cheap seed-determined generator for per-case choices
+// (math/rand's seeding costs more than a whole case).
+type splitMix struct{ x uint64 }
+
+func newSplitMix(seed int64) *splitMix {
+	return &splitMix{x: uint64(seed)*0x9E3779B97F4A7C15 + 0x1234567}
+}
+
+func (s *splitMix) next() uint64 {
+	s.x += 0x9E3779B97F4A7C15
+	z := s.x
+	z = (z ^ (z >> 30)) * 0xBF58476D1CE4E5B9
+	z = (z ^ (z >> 27)) * 0x94D049BB133111EB
+	return z ^ (z >> 31)
+}
+func (s *splitMix) Intn(n int) int       { return int(s.next() % uint64(n)) }
+func (s *splitMix) Int63n(n int64) int64 { return int64(s.next() % uint64(n)) }
 
 // ---------------------------------------------------------------- plugin instances
 
@@ -256,7 +277,7 @@ func runUnit(u unit, lrn []learned, local map[string]int64) {
 		}
 		c := u.c
 		c.Rep = i
-		rng := rand.New(rand.NewSource(u.c.Seed + int64(i)*7919))
+		rng := newSplitMix(u.c.Seed + int64(i)*7919)
 		c.Seed = rng.Int63n(1 << 40)
 		if c.POut == "error" {
 			c.PErrAns = rng.Intn(3) == 0
@@ -414,6 +435,12 @@ func main() {
 	rep.Assume("'primary in time' is certain by construction: it is released within milliseconds while the threshold is 5000 ms (cases that take longer than 2.5 s are reported inconclusive)")
 	rep.Assume("'the call returns' is restated as returning within 4 s of the enabling event (nominal < 1 ms, resp. the 10-40 ms threshold)")
 	rep.Assume("when the caller's context ends at the same time as a result becomes due, either the result or the context error is accepted")
+	if pf := os.Getenv("C20_CPUPROFILE"); pf != "" {
+		f, _ := os.Create(pf)
+		_ = pprof.StartCPUProfile(f)
+		defer pprof.StopCPUProfile()
+		stopProfile = pprof.StopCPUProfile
+	}
 	buildPlugins()
 	sched.On("fallback.primary.signalled", hookPrimarySignalled)
 	sched.On("fallback.secondary.finished", hookSecondary("hook.S.finished"))
@@ -451,14 +478,19 @@ func main() {
 
 	repsLong := rep.Pick(100, 1000)
 	repsShort := rep.Pick(24, 240)
-	repsEdge := rep.Pick(600, 6000)
+	repsEdge := rep.Pick(400, 5000)
 	parallel := 96
 	rng := rand.New(rand.NewSource(rep.Seed))
 	bases := baseCells()
+	if os.Getenv("C20_DEBUG_ONLY_EDGE") != "" {
+		bases = nil
+	}
 	procsList := []int{1, 2, 16}
 	nUnits := 0
+	passWall := map[string]float64{}
 	for pi, procs := range procsList {
 		runtime.GOMAXPROCS(procs)
+		passStart := time.Now()
 		share := func(n int) int {
 			x := n * []int{20, 20, 60}[pi] / 100
 			if x < 1 {
@@ -470,13 +502,16 @@ func main() {
 		// running next to them pick up whatever the edge does to pooled timers
 		edgeUnits := func() []unit {
 			var us []unit
+			if procs < 16 {
+				return nil // releasing a timer while it fires needs real parallelism
+			}
 			for i := 0; i < 64; i++ {
 				c := cell{Standby: i%2 == 0, Regime: "short", ThresholdMs: 1, POut: "answer", SOut: "error", Order: "together",
 					Pause: "none", Cancel: -1, CancelRace: -1, Edge: "S-at-edge", Procs: procs, SettleUs: settleUs, Seed: rng.Int63n(1 << 40)}
 				if !c.Standby {
 					c.Edge = "P-at-edge"
 				}
-				us = append(us, unit{c: c, reps: share(repsEdge), base: -1})
+				us = append(us, unit{c: c, reps: repsEdge, base: -1})
 			}
 			return us
 		}
@@ -503,6 +538,7 @@ func main() {
 			if b.Regime == "short" {
 				n = share(repsShort)
 			}
+			n = (n + 1) / 2
 			for k := 0; k < lrn[bi].points; k++ {
 				v := b
 				v.Cancel, v.Seed = k, rng.Int63n(1<<40)
@@ -523,7 +559,9 @@ func main() {
 		rng.Shuffle(len(units), func(i, j int) { units[i], units[j] = units[j], units[i] })
 		nUnits += len(units)
 		runUnits(units, lrn, parallel)
+		passWall[fmt.Sprintf("gomaxprocs=%d", procs)] = time.Since(passStart).Seconds()
 	}
+	rep.Extra("pass_wall_s", passWall)
 	runtime.GOMAXPROCS(16)
 
 	rep.Count("units(cell x context-end variant x GOMAXPROCS)", int64(nUnits))
@@ -560,5 +598,6 @@ func main() {
 			rep.Inconclusive("monitor observed no context end / no secondary start")
 		}
 	}
+	stopProfile()
 	rep.Finish()
 }
